@@ -6,6 +6,14 @@ from pathlib import Path
 
 
 def _jaqal_find_spec_relative(mod_name, search_path):
+    try:
+        return _jaqal_probe_spec_relative(mod_name, search_path)
+    except OSError as exc:
+        # E.g. a name too long for the file system: there is no such module
+        raise ImportError(f"Unable to find module {mod_name}") from exc
+
+
+def _jaqal_probe_spec_relative(mod_name, search_path):
     # Our top preference is a module in a directory:
     try_directory = search_path / mod_name
     if (try_directory / "__init__.py").is_file():
